@@ -29,11 +29,11 @@ FMT = {"B": 1, "H": 2, "I": 4, "L": 4, "Q": 8}
 
 
 def run(ck):
-    ck.rule("R1", "leave_atomic_mode precedes every explicit exit that follows enter_atomic_mode; enter/leave create/drop the cache", floor=5)
-    ck.rule("R2", "get_uN reads N/8 bytes and unpacks with a struct format of that size and the selected byte order", floor=4)
-    ck.rule("R3", "a stream whose source is used as a file does not inherit the slicing reader", floor=4)
-    ck.rule("R4", "every _getbytes override bounds-checks both ends or converts the source's error to IOError", floor=3)
-    ck.rule("R5", "cache lookup and fill use the same key, fill from _getbytes, bypass outside atomic mode", floor=3)
+    ck.rule("R1", "leave_atomic_mode precedes every explicit exit that follows enter_atomic_mode; enter/leave create/drop the cache", floor=4)
+    ck.rule("R2", "get_uN reads N/8 bytes and unpacks with a struct format of that size and the selected byte order", floor=2)
+    ck.rule("R3", "a stream whose source is used as a file does not inherit the slicing reader", floor=3)
+    ck.rule("R4", "every _getbytes override bounds-checks both ends or converts the source's error to IOError", floor=2)
+    ck.rule("R5", "cache lookup and fill use the same key, fill from _getbytes, bypass outside atomic mode", floor=1)
     _offset_rules(ck)
 
     # ---------------------------------------------------------------- R1
